@@ -13,11 +13,17 @@ Inductive qop :=
 | QEstimate (v value : Z) (ok : bool)
 | QElect (value : Z) (ok : bool).
 
+(** Keeper level: estimates come in, end-blocks run under the snapshot of the moment. *)
+Inductive eop :=
+| EEstimate (v value : Z) (ok : bool)
+| EBlock (sn : list (Z * Z)) (total : Z) (elected_after : Z).
+
 Inductive case :=
 | CMedian (s : list Z) (got : Z)
 | CEstimates (sn : list (Z * Z)) (total : Z) (es : list (Z * Z)) (got : Z)
 | CEvidence (sn : list (Z * Z)) (total : Z) (evs : list (Z * Z * Z * bool)) (got : obs)
-| CQueue (requires : bool) (ops : list qop) (evs : list (Z * Z * Z * bool)) (es : list (Z * Z)) (elected : Z).
+| CQueue (requires : bool) (ops : list qop) (evs : list (Z * Z * Z * bool)) (es : list (Z * Z)) (elected : Z)
+| CEndBlock (requires : bool) (ops : list eop) (es : list (Z * Z)) (elected : Z).
 
 (** Ideal (collision-free) group key: the pair itself. *)
 Definition ikey (tag data : Z) : Z * Z := code_key (fun t d => (t, d)) tag data.
@@ -68,6 +74,22 @@ Definition qstep (s : option qstate) (o : qop) : option qstate :=
     end
   end.
 
+(** Same step function as the theorems' histories (Quorum.qm_step). *)
+Definition estep (s : option qmsg) (o : eop) : option qmsg :=
+  match s with
+  | None => None
+  | Some m =>
+    match o with
+    | EEstimate v x ok =>
+      let e := {| es_val := v; es_value := x |} in
+      let accepted := match add_gas_estimate m e with Some _ => true | None => false end in
+      if Bool.eqb accepted ok then Some (qm_step m (OpAddEstimate e)) else None
+    | EBlock sn total el =>
+      let m' := qm_step m (OpEndBlock {| sn_vals := sn; sn_total := total |}) in
+      if q_elected m' =? el then Some m' else None
+    end
+  end.
+
 Definition ev_eqb (a b : evidence) : bool :=
   (ev_val a =? ev_val b) && (ev_tag a =? ev_tag b) && (ev_data a =? ev_data b).
 Definition es_eqb (a b : estimate) : bool := (es_val a =? es_val b) && (es_value a =? es_value b).
@@ -86,5 +108,10 @@ Definition check (c : case) : bool :=
       | Some s => list_eqb ev_eqb (qs_ev s) (map mk_ev evs)
                   && list_eqb es_eqb (q_estimates (qs_msg s)) (map mk_es es)
                   && (q_elected (qs_msg s) =? elected)
+      end
+  | CEndBlock requires ops es elected =>
+      match fold_left estep ops (Some {| q_requires := requires; q_estimates := []; q_elected := 0; q_nsigs := 0 |}) with
+      | None => false
+      | Some m => list_eqb es_eqb (q_estimates m) (map mk_es es) && (q_elected m =? elected)
       end
   end.
